@@ -188,6 +188,42 @@ def longlits(rng, n):
     return bytes(out[:n])
 
 
+def subtail(rng, nblocks):
+    """128 KiB blocks made of one or two long copies of earlier data followed by a short incompressible tail holding a single short match;
+    the next block starts by re-using that match's distance. With ZSTD_c_targetCBlockSize the tail becomes a raw sub-block whose
+    sequence is never sent: the repeat-offset history handed to the next block has to be rebuilt from the sequences that were sent."""
+    BLK = 131072
+    out = bytearray(text(rng, BLK))
+    lastdist = 0
+    for b in range(1, nblocks):
+        tail = rng.choice([300, 1200, 2500, 6000])
+        dist = rng.randint(20, min(400, tail - 30))
+        if lastdist:
+            out += randbytes(rng, rng.randint(1, 4))
+            for _ in range(rng.randint(8, 60)):
+                out.append(out[-lastdist])
+        room = BLK - (len(out) % BLK)
+        body = room - tail
+        st = rng.randrange(0, len(out) - body) if len(out) > body else 0
+        if rng.random() < 0.6:
+            out += out[st:st + body]
+        else:
+            h = body // 2
+            out += out[st:st + h]
+            st2 = rng.randrange(0, len(out) - (body - h))
+            out += out[st2:st2 + body - h]
+        t = bytearray(randbytes(rng, tail))
+        pos = rng.randint(dist, tail - 8); ln = rng.randint(4, 8)
+        t[pos:pos + ln] = t[pos - dist:pos - dist + ln]
+        out += t
+        lastdist = dist
+    out += randbytes(rng, 3)
+    for _ in range(48):
+        out.append(out[-lastdist])
+    out += text(rng, rng.choice([100, 5000, 60000]))
+    return bytes(out)
+
+
 KINDS = [text, randbytes, periodic, repcodes, small_alphabet, runs, tinymatches]
 
 
